@@ -243,7 +243,10 @@ Definition compile (d : desc) (g : graph) : res compiled :=
           | XY => if nodupb idv_eqb ids then Ok tt else Err "ValueError: two endpoints have the same XY coordinate"
           | _ => Ok tt
           end;
-  (* compile_links: only axi / narrow-wide without virtual channels *)
+  (* compile_links: the signals of a link are named <source>_to_<dest>, two links must not share that name;
+     only axi / narrow-wide without virtual channels *)
+  do _ <- if nodupb str_eqb (map (fun e => e_src e +++ "_to_" +++ e_dst e) (filter is_link (g_edges g))) then Ok tt
+          else Err "ValueError: two links have the same name";
   do dirs <- compile_endpoints d g;
   do nis <- mapM (compile_ni d g) (nodes_of_type g NNi);
   do rts <- mapM (fun p => compile_router d g (fst p) (snd p)) (zip (nodes_of_type g NRouter) rids);
